@@ -367,3 +367,103 @@ Proof. vm_compute. reflexivity. Qed.
 Example C20_example_deadline :
   read_response 9 (mkMex ECtxDeadline [(mkFH 16 4 0 9, [])] (ESys 7 [])) = CErr (ESys 1 [116; 105; 109; 101; 111; 117; 116]).
 Proof. vm_compute. reflexivity. Qed.
+
+(* ==== wait sites: every place where the END OF A CONTEXT is turned into the call's error ====
+
+   Vocabulary (Spec/CtxSiteSpec.v, Model/CtxPath.v, Proofs/CtxPathP.v):
+     ctx_sites (GENERATED, Gen/GenCtxSites.v)   every branch of package tchannel that runs because a
+                                  context ended -- the body of `case <-X.Done():`, of `if X.Err() != nil`,
+                                  `if err := X.Err(); err != nil`, `if X.Err() == context.Canceled`, or any
+                                  other statement with an X.Err() -- with, for every return reachable from
+                                  the branch, the returned error as an expression over the context's error:
+                                  CxCtx (the context's error itself), CxConv e (GetContextError(e)),
+                                  CxWrap code e, CxPass f e, CxVal name, CxNil, CxOther source
+     cx_eval r c                  the value of such an expression for the context error c, with the
+                                  GENERATED GetContextError / NewWrappedSystemError of Gen/GenErrors.v
+     ctx_end, spec_ctx_code       EndDeadline -> 1 (timeout), EndCanceled -> 2 (cancelled): the statement
+     call_error st e de           the error an API caller gets when the context ends by e while the call is
+                                  parked at stage st of the call path (queued on the peer's new-connection
+                                  semaphore, check in front of the dial, inside the dialer (which reports de),
+                                  handshake, beginCall, flushFragment's check / select, recvPeerFrame's
+                                  check / select), composed from ctx_sites and the GENERATED error-flow
+                                  functions of Gen/GenCtxErr.v (Channel.Connect's dial-error block,
+                                  Channel.initError, Peer.GetConnection, Peer.getConnectionRelay, Peer.BeginCall)
+     relay_connect_result st de   what Relayer.handleCallReq does when the time-to-live ends at stage st of
+                                  Peer.getConnectionRelay (relay_handle_callreq of Model/ErrorPath.v)  *)
+From Verif Require Import Gen.GenCtxSites Gen.GenWaitSites Spec.CtxSiteSpec Spec.WaitSpec Model.CtxPath Proofs.CtxPathP.
+
+(* EVERY consumer of a context's end in the package: each error it can return is a system error
+   with the documented code (deadline -> timeout, cancellation -> cancelled); the context's error
+   is handed to no function that could keep it; the extraction saw every return of the branch *)
+Theorem C20_ctx_sites_converted : forall s, In s ctx_sites ->
+  (forall r e, In r (cs_rets s) -> when_applies (cs_when s) e = true ->
+     exists msg, cx_eval r (ctx_err e) = Some (ESys (spec_ctx_code e) msg)) /\
+  (forall f b, In (f, b) (cs_calls s) -> b = true) /\
+  (cs_falls s = true -> cs_rets s = []).
+Proof. exact ctx_sites_converted. Qed.
+
+(* the table is not empty where it matters: the consumers of the call path are in it and return
+   something, and every select of property C05's table of blocking statements of the outbound
+   call path (Gen/GenWaitSites.v) that can be left through the context has its branch in it *)
+Theorem C20_ctx_sites_required : forall fn k, In (fn, k) required_sites ->
+  exists s, In s ctx_sites /\ cs_fn s = fn /\ cs_kind s = k /\ cs_rets s <> [].
+Proof. exact ctx_sites_required. Qed.
+Theorem C20_wait_sites_covered : forall w, In w wait_sites -> ws_kind w = WSelect -> In XCtx (ws_exits w) ->
+  exists s, In s ctx_sites /\ cs_fn s = ws_fn w /\ cs_kind s = KDone /\ cs_rets s <> [].
+Proof. exact wait_sites_covered. Qed.
+
+(* for every wait site on the call path, a context that ends there yields the documented code.
+   dial_reports: what a dialer may report -- deadline: an error that says "timeout" (net.Dialer's
+   i/o timeout or the context's own error); cancellation: any other error.
+   Exception on the pinned tree: a cancellation while the HANDSHAKE is pending (next theorem). *)
+Theorem C20_ctx_call_sites : forall st e de,
+  dial_reports e de ->
+  ((st, e) <> (GHandshake, EndCanceled) \/ handshake_sees_cancel = true) ->
+  exists msg, call_error st e de = Some (ESys (spec_ctx_code e) msg).
+Proof. exact ctx_call_sites. Qed.
+
+(* REFUTED CLAUSE (finding c20:handshake-ignores-cancel): while the deferred error mapping of
+   Channel.outboundHandshake does not test the context (handshake_sees_cancel = false, computed from
+   the generated table), a caller that cancels during the handshake gets timeout, not cancelled *)
+Theorem C20_ctx_handshake_cancel_refuted : handshake_sees_cancel = false ->
+  forall de, call_error GHandshake EndCanceled de = Some v_ErrTimeout /\
+             sys_code v_ErrTimeout <> spec_ctx_code EndCanceled.
+Proof. exact ctx_handshake_cancel_refuted. Qed.
+
+(* a relay whose lookup of the destination connection outlives the call's time-to-live (queued
+   behind another call's connection attempt, in front of / inside the dialer, in the handshake)
+   originates timeout (0x01) and keeps the caller's connection open *)
+Theorem C20_ctx_relay_sites : forall st de, In st conn_stages -> is_net_timeout de = true ->
+  exists msg, relay_connect_result st de = Some (RRError (ESys 1 msg) false) /\
+              spec_relay_code RSTimeout = Some 1 /\ spec_relay_code (RSConnectSystem 1) = Some 1.
+Proof. exact ctx_relay_sites. Qed.
+
+(* the harness entry point of the model equals the observable the statement prescribes *)
+Theorem C20_ctxsite_model_is_spec : forall s en topo variant,
+  ctxsite_input_ok s en topo variant ->
+  ((s, en) <> (3, 2) \/ handshake_sees_cancel = true) ->
+  run_c20_ctxsite [s; en; topo; variant] = spec_ctxsite en topo.
+Proof. exact run_ctxsite_spec. Qed.
+
+Print Assumptions C20_ctx_sites_converted.
+Print Assumptions C20_ctx_sites_required.
+Print Assumptions C20_wait_sites_covered.
+Print Assumptions C20_ctx_call_sites.
+Print Assumptions C20_ctx_handshake_cancel_refuted.
+Print Assumptions C20_ctx_relay_sites.
+Print Assumptions C20_ctxsite_model_is_spec.
+
+(* non-vacuity: the table has the row of Peer.lockNewConn; a deadline that passes while a call is
+   queued there reaches the caller as timeout, a cancellation as cancelled; through a relay: 0x01 *)
+Example C20_ctx_example :
+  In (mkCsite fn_lockNewConn KDone WAny [CxConv CxCtx] false []) ctx_sites /\
+  call_error GQueued EndDeadline ENil = Some v_ErrTimeout /\
+  call_error GQueued EndCanceled ENil = Some v_ErrRequestCancelled /\
+  relay_connect_result GQueued ENil = Some (RRError v_ErrTimeout false) /\
+  dial_reports EndDeadline ECtxDeadline /\ dial_reports EndCanceled ECtxCanceled /\
+  ctxsite_input_ok 0 1 2 0.
+Proof.
+  split; [vm_compute; tauto|]. split; [vm_compute; reflexivity|]. split; [vm_compute; reflexivity|].
+  split; [vm_compute; reflexivity|]. split; [reflexivity|]. split; [split; reflexivity|].
+  unfold ctxsite_input_ok. lia.
+Qed.
